@@ -4,10 +4,7 @@
    epoll_ctl for any k, epoll_pwait2 / timerfd / ppoll / eventfd2 / eventfd missing from their first call, EMFILE under
    the poll methods), any wait limit.  Because `wf_scenario` quantifies over the method and the fault set, every
    clause below is a statement about every method and every fault sequence.
-   STATUS: the full statement is `mon_all (run_scenario sc) = true /\ mon_guard sc (run_scenario sc) = true`
-   (Properties_C15.v.draft).  Proved here: the whole guard monitor and every tracker clause except 711 (two consecutive waits that return at
-   once without a callback in between), which is checked on every model and implementation trace by the extracted
-   monitor while its proof is being completed. *)
+   The full statement on the core model: `mon_all (run_scenario sc) = true /\ mon_guard sc (run_scenario sc) = true`. *)
 From Coq Require Import List ZArith Bool Lia.
 From Ivv Require Import Core.Kernel Core.CoreTypes Core.CoreFd Core.CoreModel Core.Monitors Core.GuardMon Core.CoreSpec
   Core.CoreRel Core.CoreCodes Core.CorePhase2Fd Core.CorePhase2Ei Core.CorePhase2GuardAll Core.CoreAll Core.CoreExamples.
@@ -21,12 +18,12 @@ Theorem C15_interrupted_waits :
 Proof. exact core_mon_C15. Qed.
 Print Assumptions C15_interrupted_waits.
 
-(* on every poll method and under every fault set, the only clause of the behavioural monitor (all clauses of
-   C01-C04, C06, C07, C09, C18 and the event clause 801) that is not yet excluded by proof is 711 *)
-Theorem C15_all_methods_all_faults_partial :
-  forall sc, wf_scenario sc -> forall c, In c (mon_fails (run_scenario sc)) -> c = 711.
-Proof. exact core_all_but_711. Qed.
-Print Assumptions C15_all_methods_all_faults_partial.
+(* on every poll method and under every fault set the behavioural monitor is silent: every clause of C01-C04, C06,
+   C07, C09, C18, the event clause 801 and the interrupted-wait clauses *)
+Theorem C15_all_methods_all_faults :
+  forall sc, wf_scenario sc -> mon_all (run_scenario sc) = true.
+Proof. exact core_mon_all. Qed.
+Print Assumptions C15_all_methods_all_faults.
 
 (* the guard monitor is silent on every method under every fault set: exactly the scripted API calls that the
    documented state allows are executed (1101/1102), the loop never polls twice in a row without sleeping, reporting
